@@ -7,6 +7,9 @@ use serde_json::Value;
 pub const NONE: i64 = -999999;
 
 pub fn is_some(v: &Value) -> bool {
+    if let Some(a) = v.get("a").and_then(|a| a.as_str()) {
+        return a != "none";
+    }
     match v.as_i64() {
         Some(n) => n != NONE,
         None => !v.is_null(),
@@ -73,7 +76,31 @@ impl Style<'_> {
     }
 }
 
+pub fn anchor(a: &str) -> i128 {
+    match a {
+        "i128min" => i128::MIN + 8,
+        "i64min" => i64::MIN as i128,
+        "i32min" => i32::MIN as i128,
+        "i16min" => i16::MIN as i128,
+        "i8min" => i8::MIN as i128,
+        "i8max" => i8::MAX as i128,
+        "u8max" => u8::MAX as i128,
+        "i16max" => i16::MAX as i128,
+        "u16max" => u16::MAX as i128,
+        "i32max" => i32::MAX as i128,
+        "u32max" => u32::MAX as i128,
+        "i64max" => i64::MAX as i128,
+        "u64max" => u64::MAX as i128,
+        "i128max" | "u128max" => i128::MAX - 8,
+        _ => 0,
+    }
+}
+
 pub fn num(v: &Value) -> i128 {
+    // symbolic integers of the specification: anchor + offset
+    if let Some(a) = v.get("a").and_then(|a| a.as_str()) {
+        return anchor(a) + v["d"].as_i64().unwrap_or(0) as i128;
+    }
     // numbers may be given as JSON integers or as decimal strings (beyond 2^53)
     if let Some(n) = v.as_i64() {
         n as i128
